@@ -44,7 +44,8 @@ type caller struct {
 	Value    string        `json:"value,omitempty"`
 	Panic    string        `json:"panic,omitempty"`
 
-	handle setec.Secret
+	handle  setec.Secret
+	updater *setec.Updater[string]
 }
 
 type nameCase struct {
@@ -122,7 +123,7 @@ func TestC16(t *testing.T) {
 			realClientSlowService(t, r, i)
 		}
 	}
-	r.Require("lookups_disabled_cases", "lookups_enabled_cases", "shared_flights", "failed_lookups", "hang_bounded_callers", "retry_after_foreign_cancel", "successful_lookups", "stress_lookups", "cases_with_failing_cache", "handles_followed_a_later_poll", "real_client_cancel_cases", "overlapping_cache_writes", "real_client_slow_service_cases")
+	r.Require("lookups_disabled_cases", "lookups_enabled_cases", "shared_flights", "failed_lookups", "hang_bounded_callers", "retry_after_foreign_cancel", "successful_lookups", "stress_lookups", "cases_with_failing_cache", "handles_followed_a_later_poll", "updaters_followed_a_later_poll", "real_client_cancel_cases", "overlapping_cache_writes", "real_client_slow_service_cases")
 	r.Rule("seeded cases: AllowLookup on/off; 1-2 undeclared names each with a service mode (ok, slow D, fail, fail-then-ok, hang for ever, not found) and 1-6 callers (LookupSecret / NewUpdater / Fields.Apply) with start offsets and contexts (background, deadline 1 s/1 min/10 min, cancelled at a random instant). Distinct = (AllowLookup, service mode, number of callers, set of context kinds, set of caller outcomes)")
 }
 
@@ -228,6 +229,7 @@ func runCase(t *testing.T, r *evid.Run, c *tcase) {
 						u, err = setec.NewUpdater(ctx, st, nc.Name, func(b []byte) (string, error) { return string(b), nil })
 						if err == nil {
 							cl.Value = u.Get()
+							cl.updater = u
 						}
 					case "apply":
 						var v struct {
@@ -437,6 +439,14 @@ func runCase(t *testing.T, r *evid.Run, c *tcase) {
 					fail("refresh-fails", err.Error(), nil)
 				}
 				for i, cl := range nc.Callers {
+					if cl.updater != nil {
+						// an updater obtained through the lookup is a working handle like any other
+						r.Count("updaters_followed_a_later_poll", 1)
+						if got := cl.updater.Get(); got != string(nv) {
+							fail("looked-up-handle-not-live", fmt.Sprintf("the updater caller %d of %q received yields %q after a poll installed %q", i, nc.Name, got, nv), map[string]any{"log": log})
+							break
+						}
+					}
 					if cl.handle != nil {
 						r.Count("handles_followed_a_later_poll", 1)
 						if got := string(cl.handle.Get()); got != string(nv) {
